@@ -11,6 +11,7 @@ import YaclibModel.Proofs.WhenSpec
 import YaclibModel.Proofs.WhenNodes
 import YaclibModel.Proofs.WhenComposeProgress
 import YaclibModel.Proofs.WhenComposeSharedSim
+import YaclibModel.Proofs.WhenComposeMixed
 import YaclibModel.Extracted.Kernels
 import YaclibModel.Model.Skeletons
 
@@ -515,6 +516,74 @@ example : ∃ T, WhenS.Reachable ⟨⟨.allVec false, [.val 0, .val 1]⟩, fun i
   exact ⟨_, h18, rfl, rfl, rfl⟩
 
 end ComposedShared
+
+/-! ### packs mixing unique and shared inputs (Model/WhenComposeMixed.lean): `WhenM`, instance i a C01 unique core or a C06
+shared core with other observers, chosen by the workload; the synchronised steps are the union of WhenU's and WhenS's -/
+
+section ComposedMixed
+open Yaclib
+variable {M : WhenM.Workload} {R : WhenM.State}
+
+/-- **the entry interface is sound for mixed packs**: the When part is When-reachable; per input the callback entries the
+    When model counted are the deliveries of the unique instance / the times the shared instance fired the combinator
+    callback, at most one -/
+theorem mixed_input_interface_sound (hwf : M.w.wf) (h : WhenM.Reachable M R) :
+    Reachable M.w R.wh ∧
+    (∀ i, M.kind i = false → R.wh.consumed i = (R.u i).delivered.length ∧ (R.u i).delivered.length ≤ 1) ∧
+    (∀ i, M.kind i = true → R.wh.consumed i = (Shared.firedIds (R.sh i)).count WhenS.cb0 ∧
+      (Shared.firedIds (R.sh i)).count WhenS.cb0 ≤ 1) := by
+  obtain ⟨hW, hK⟩ := WhenM.sim hwf h
+  refine ⟨hW, fun i hk => ⟨hK.u_entries i hk, ?_⟩, fun i hk => ⟨hK.s_entries i hk, ?_⟩⟩
+  · have hI := Unique.inv_reachable (WhenM.parts_reachable h i).1.1
+    rcases hI.delivered_one with h0 | h1
+    · simp [h0]
+    · omega
+  · have hI := Shared.inv_reachable (WhenM.parts_reachable h i).2.1
+    have h1 := hI.c.conserve WhenS.cb0
+    have h2 := hI.c.nodup WhenS.cb0
+    omega
+
+theorem out_set_once_mixed (hwf : M.w.wf) (h : WhenM.Reachable M R) : R.wh.outSet.length ≤ 1 :=
+  out_set_once hwf (mixed_input_interface_sound hwf h).1
+
+theorem no_crash_mixed (hwf : M.w.wf) (h : WhenM.Reachable M R) : R.wh.crashed = false :=
+  (no_crash hwf (mixed_input_interface_sound hwf h).1).1
+
+/-- non-vacuity (n = 2, driven through the components' `next`): input 0 is a Future, input 1 a SharedFuture that already has
+    a `SubscribeInline` subscriber; input 1 completes first (its walk enters the combinator callback, then runs the
+    subscriber), input 0 afterwards; the vector comes out in index order -/
+example : ∃ R, WhenM.Reachable ⟨⟨.allVec false, [.val 0, .val 1]⟩, fun i => decide (i = 1),
+      fun i => if i = 1 then [[.attach .inl]] else []⟩ R ∧
+    R.wh.outSet = [.vec [some (.val 0), some (.val 1)]] ∧ (R.u 0).delivered = [(.p, .val 0)] ∧
+    (R.sh 1).fired = [(WhenS.cb0, some (.val 1)), (⟨1, 0, .inl⟩, some (.val 1))] := by
+  let M : WhenM.Workload := ⟨⟨.allVec false, [.val 0, .val 1]⟩, fun i => decide (i = 1),
+    fun i => if i = 1 then [[.attach .inl]] else []⟩
+  let sub : Shared.Cb := ⟨1, 0, .inl⟩
+  have h0 : WhenM.Reachable M (WhenM.init M) := .init
+  have h1 := WhenM.Reachable.step h0 (.sfree _ 1 (.oLoad 1 (.list [])) _ rfl (by decide) rfl (Shared.next_sound rfl))
+  have h2 := WhenM.Reachable.step h1 (.sfree _ 1 (.oCasOk 1) _ rfl (by decide) rfl (Shared.next_sound rfl))
+  have h3 := WhenM.Reachable.step h2 (.ucload _ 0 .empty _ rfl ⟨rfl, rfl, by decide, rfl⟩ (Unique.next_sound rfl))
+  have h4 := WhenM.Reachable.step h3 (.ucasOk _ 0 _ rfl ⟨rfl, rfl, by decide, rfl⟩ (Unique.next_sound rfl))
+  have h5 := WhenM.Reachable.step h4
+    (.sreg _ 1 (.oLoad 0 (.list [sub])) _ rfl ⟨rfl, rfl, by decide, rfl⟩ rfl (Shared.next_sound rfl))
+  have h6 := WhenM.Reachable.step h5 (.scasOk _ 1 _ rfl ⟨rfl, rfl, by decide, rfl⟩ (Shared.next_sound rfl))
+  have h7 := WhenM.Reachable.step h6
+    (.sfree _ 1 (.fXchg (.list [WhenS.cb0, sub])) _ rfl (by decide) rfl (Shared.next_sound rfl))
+  have h8 := WhenM.Reachable.step h7 (.senterP _ 1 _ rfl (by decide) (Shared.next_sound rfl))
+  have h9 := WhenM.Reachable.step h8 (.when _ (.dec 1 2) _ rfl (next_sound rfl))
+  have h10 := WhenM.Reachable.step h9 (.sfree _ 1 (.fDec 5) _ rfl (by decide) rfl (Shared.next_sound rfl))
+  have h11 := WhenM.Reachable.step h10
+    (.sfree _ 1 (.fInvoke sub (some (.val 1))) _ rfl (by decide) rfl (Shared.next_sound rfl))
+  have h12 := WhenM.Reachable.step h11 (.uprod _ 0 (.cb .cont) _ rfl (by decide) (Unique.next_sound rfl))
+  have h13 := WhenM.Reachable.step h12 (.uenterP _ 0 (.val 0) _ rfl (by decide) (Unique.next_sound rfl))
+  have h14 := WhenM.Reachable.step h13 (.when _ (.dec 0 1) _ rfl (next_sound rfl))
+  have h15 := WhenM.Reachable.step h14 (.when _ (.dtorRel 0 0) _ rfl (next_sound rfl))
+  have h16 := WhenM.Reachable.step h15 (.when _ (.dtorRel 0 1) _ rfl (next_sound rfl))
+  have h17 := WhenM.Reachable.step h16
+    (.when _ (.dtorSet 0 (.vec [some (.val 0), some (.val 1)])) _ rfl (next_sound rfl))
+  exact ⟨_, h17, rfl, rfl, rfl⟩
+
+end ComposedMixed
 
 /-! ### non-vacuity: concrete workloads reach the interesting states -/
 
